@@ -14,6 +14,12 @@ package handshake
 // After every step the error / no error outcome and every field of the act a
 // side produced are compared with the specification.
 //
+// Besides whole-field changes the attacker flips bits: of a raw nonce ("lo" /
+// "mid" / "hi": first, a middle, the last byte) and of one 8-byte word of the
+// 32-byte challenge. Every behaviour with such a flip is replayed three times,
+// flipping a bit in the first, a middle and the last byte of the chosen word
+// (the middle byte rotates, so that every byte position 0..31 is exercised).
+//
 // The hash is not transcribed: the first challenge the code produces for a
 // pair of model nonces is bound to that pair; the code must produce the same
 // bytes for the pair ever after and different bytes for different pairs.
@@ -44,34 +50,91 @@ func (r *c20Reader) Read(p []byte) (int, error) {
 }
 
 type c20Binding struct {
-	byPair map[[2]int][sha256.Size]byte
-	byHash map[[sha256.Size]byte][2]int
+	byPair map[[2]uint64][sha256.Size]byte
+	byHash map[[sha256.Size]byte][2]uint64
 }
 
-// challenge returns the concrete challenge for a model pair; pairs the code has
-// not produced yet are the attacker's own computations.
-func (b *c20Binding) challenge(pair [2]int) [sha256.Size]byte {
+// hash returns the concrete challenge for a pair of concrete nonces; pairs the
+// code has not produced yet are the attacker's own computations.
+func (b *c20Binding) hash(pair [2]uint64) [sha256.Size]byte {
 	if h, ok := b.byPair[pair]; ok {
 		return h
 	}
-	return hashToChallenge(c20Nonce[pair[0]], c20Nonce[pair[1]])
+	return hashToChallenge(pair[0], pair[1])
 }
 
 // bind records what the code produced for pair; returns a description of the
 // inconsistency if there is one.
-func (b *c20Binding) bind(pair [2]int, h [sha256.Size]byte) string {
+func (b *c20Binding) bind(pair [2]uint64, h [sha256.Size]byte) string {
 	if old, ok := b.byPair[pair]; ok && old != h {
-		return fmt.Sprintf("the challenge for nonces %v changed between two computations", pair)
+		return fmt.Sprintf("the challenge for nonces %x changed between two computations", pair)
 	}
 	if p, ok := b.byHash[h]; ok && p != pair {
-		return fmt.Sprintf("nonce pairs %v and %v give the same challenge", p, pair)
+		return fmt.Sprintf("nonce pairs %x and %x give the same challenge", p, pair)
 	}
 	b.byPair[pair] = h
 	b.byHash[h] = pair
 	return ""
 }
 
-func c20Pair(v kit.V) [2]int { return [2]int{v.Idx(0).Int(), v.Idx(1).Int()} }
+// c20Variant says which byte of a flipped word / nonce is touched in this replay.
+type c20Variant struct {
+	which int // 0 first, 1 middle, 2 last byte of the word
+	mid   int // the middle byte: 1..6
+	bytes map[string]bool
+	last  string // the flip applied last in this replay
+}
+
+func (v *c20Variant) wordByte() int {
+	switch v.which {
+	case 0:
+		return 0
+	case 2:
+		return 7
+	}
+	return v.mid
+}
+
+// nonce: model record [n, f] -> concrete nonce
+func (v *c20Variant) nonce(m kit.V) uint64 {
+	x := c20Nonce[m.Get("n").Int()]
+	off := -1
+	switch m.Get("f").Str() {
+	case "lo":
+		off = 0
+	case "mid":
+		off = v.mid
+	case "hi":
+		off = 7
+	}
+	if off >= 0 {
+		x ^= uint64(0x10) << (8 * uint(off)) // little endian: byte `off` of the 8 nonce bytes
+		v.bytes[fmt.Sprintf("nonce_byte_%d", off)] = true
+		v.last = fmt.Sprintf("a bit of byte %d of the 8-byte nonce flipped in flight", off)
+	}
+	return x
+}
+
+// challenge: model vector of four words [a, b, x] -> the 32 concrete bytes
+func (v *c20Variant) challenge(b *c20Binding, m kit.V) [sha256.Size]byte {
+	var out [sha256.Size]byte
+	for i, w := range m.List() {
+		h := b.hash([2]uint64{v.nonce(w.Get("a")), v.nonce(w.Get("b"))})
+		copy(out[8*i:8*i+8], h[8*i:8*i+8])
+		if w.Get("x").Int() == 1 {
+			k := 8*i + v.wordByte()
+			out[k] ^= 0x01
+			v.bytes[fmt.Sprintf("chal_byte_%d", k)] = true
+			v.last = fmt.Sprintf("a bit of byte %d of the 32-byte challenge flipped in flight", k)
+		}
+	}
+	return out
+}
+
+func (v *c20Variant) pair(m kit.V) [2]uint64 {
+	w := m.Idx(0)
+	return [2]uint64{v.nonce(w.Get("a")), v.nonce(w.Get("b"))}
+}
 
 type c20Flight struct {
 	act int
@@ -81,15 +144,25 @@ type c20Flight struct {
 }
 
 // set makes the act in flight equal to the specification's message m.
-func (f *c20Flight) set(b *c20Binding, m kit.V) {
+func (f *c20Flight) set(b *c20Binding, v *c20Variant, m kit.V) {
 	switch f.act {
 	case 1:
-		f.a1 = &Act1Message{nonce1: c20Nonce[m.Get("nonce").Int()], protocol1: m.Get("proto").Str()}
+		f.a1 = &Act1Message{nonce1: v.nonce(m.Get("nonce")), protocol1: m.Get("proto").Str()}
 	case 2:
-		f.a2 = &Act2Message{nonce2: c20Nonce[m.Get("nonce").Int()], challenge: b.challenge(c20Pair(m.Get("chal"))), protocol2: m.Get("proto").Str()}
+		f.a2 = &Act2Message{nonce2: v.nonce(m.Get("nonce")), challenge: v.challenge(b, m.Get("chal")), protocol2: m.Get("proto").Str()}
 	case 3:
-		f.a3 = &Act3Message{challenge: b.challenge(c20Pair(m.Get("chal")))}
+		f.a3 = &Act3Message{challenge: v.challenge(b, m.Get("chal"))}
 	}
+}
+
+func c20Flips(c kit.V) bool {
+	for _, s := range c.Get("steps").List() {
+		switch s.Get("a").Str() {
+		case "AlterNonceBits", "AlterWord":
+			return true
+		}
+	}
+	return false
 }
 
 func TestVerif_C20_Acts(t *testing.T) {
@@ -101,147 +174,165 @@ func TestVerif_C20_Acts(t *testing.T) {
 	defer func() { crand.Reader = saved }()
 	rd := &c20Reader{}
 	crand.Reader = rd
-	bind := &c20Binding{byPair: map[[2]int][sha256.Size]byte{}, byHash: map[[sha256.Size]byte][2]int{}}
+	bind := &c20Binding{byPair: map[[2]uint64][sha256.Size]byte{}, byHash: map[[sha256.Size]byte][2]uint64{}}
+	touched := map[string]bool{}
 
-	for _, c := range cases {
-		var (
-			ia2   *InitiatorAct2
-			ra3   *ResponderAct3
-			fl    c20Flight
-			bad   string
-			key   string
-			tamp  bool
-			steps = c.Get("steps").List()
-		)
-		diverge := func(i int, k, what string, exp, obs interface{}) {
-			if bad == "" {
-				bad, key = what, k
-				rep.Diverge(k, fmt.Sprintf("step %d %s: %s", i+1, steps[i].Get("a").Str(), what),
-					map[string]interface{}{"behaviour": c.X, "at": i + 1}, exp, obs)
-			}
+	for ci, c0 := range cases {
+		nvar := 1
+		if c20Flips(c0) {
+			nvar = 3
 		}
-		func() {
-			defer func() {
-				if r := recover(); r != nil {
-					rep.Diverge("panic", fmt.Sprintf("handshake code panicked: %v", r), c.X, nil, nil)
-					bad = "panic"
+		for which := 0; which < nvar; which++ {
+			c := c0
+			vr := &c20Variant{which: which, mid: 1 + ci%6, bytes: touched}
+			var (
+				ia2   *InitiatorAct2
+				ra3   *ResponderAct3
+				fl    c20Flight
+				bad   string
+				key   string
+				tamp  bool
+				steps = c.Get("steps").List()
+			)
+			diverge := func(i int, k, what string, exp, obs interface{}) {
+				if bad == "" {
+					bad, key = what, k
+					if vr.last != "" {
+						what += " (" + vr.last + ")"
+					}
+					rep.Diverge(k, fmt.Sprintf("step %d %s: %s", i+1, steps[i].Get("a").Str(), what),
+						map[string]interface{}{"behaviour": c.X, "at": i + 1}, exp, obs)
+				}
+			}
+			func() {
+				defer func() {
+					if r := recover(); r != nil {
+						rep.Diverge("panic", fmt.Sprintf("handshake code panicked: %v", r), c.X, nil, nil)
+						bad = "panic"
+					}
+				}()
+				for i, s := range steps {
+					if bad != "" {
+						return
+					}
+					net := s.Get("net")
+					switch s.Get("a").Str() {
+					case "SendAct1":
+						rd.next = []uint64{c20Nonce[c.Get("n1").Int()]}
+						ia1, err := InitiateHandshake(c.Get("ip").Str())
+						if err != nil {
+							t.Fatalf("InitiateHandshake: %v", err)
+						}
+						m := ia1.Message()
+						if m.nonce1 != vr.nonce(net.Get("m").Get("nonce")) || m.protocol1 != net.Get("m").Get("proto").Str() {
+							diverge(i, "act1-content", "act 1 does not carry the initiator's nonce and protocol id", net.Get("m").X, fmt.Sprintf("%+v", *m))
+						}
+						ia2 = ia1.Next()
+						fl = c20Flight{act: 1, a1: m}
+					case "AlterField", "AlterNonceBits", "AlterWord", "Replay":
+						tamp = true
+						fl.set(bind, vr, net.Get("m"))
+					case "AnswerAct1":
+						wire, err := fl.a1.Marshal()
+						if err != nil {
+							t.Fatalf("marshal act 1: %v", err)
+						}
+						got := &Act1Message{}
+						if err := got.Unmarshal(wire); err != nil {
+							t.Fatalf("unmarshal act 1: %v", err)
+						}
+						n2 := s.Get("n2").Int()
+						rd.next = []uint64{c20Nonce[n2]}
+						if n2 == 0 {
+							rd.next = []uint64{0xdead}
+						}
+						ra2, err := AnswerHandshake(got, c.Get("rp").Str())
+						ok := s.Get("rst").Str() == "wait"
+						if (err == nil) != ok {
+							diverge(i, fmt.Sprintf("answer:%v->%v", ok, err == nil), fmt.Sprintf("AnswerHandshake(act1{nonce %d, protocol %q}, %q) returned %v, the specification says accepted = %v",
+								got.nonce1, got.protocol1, c.Get("rp").Str(), err, ok), ok, fmt.Sprint(err))
+							return
+						}
+						if err != nil {
+							return
+						}
+						m := ra2.Message()
+						wm := net.Get("m")
+						if msg := bind.bind(vr.pair(wm.Get("chal")), m.challenge); msg != "" {
+							diverge(i, "challenge", "act 2: "+msg+" (the challenge must be derived from both nonces)", wm.X, nil)
+						}
+						if m.nonce2 != vr.nonce(wm.Get("nonce")) || m.protocol2 != wm.Get("proto").Str() {
+							diverge(i, "act2-content", "act 2 does not carry the responder's nonce and protocol id", wm.X, fmt.Sprintf("%+v", *m))
+						}
+						ra3 = ra2.Next()
+						fl = c20Flight{act: 2, a2: m}
+					case "CheckAct2":
+						wire, err := fl.a2.Marshal()
+						if err != nil {
+							t.Fatalf("marshal act 2: %v", err)
+						}
+						got := &Act2Message{}
+						if err := got.Unmarshal(wire); err != nil {
+							t.Fatalf("unmarshal act 2: %v", err)
+						}
+						ia3, err := ia2.Next(got)
+						ok := s.Get("ist").Str() == "done"
+						if (err == nil) != ok {
+							what := fmt.Sprintf("InitiatorAct2.Next returned %v, the specification says accepted = %v", err, ok)
+							if err == nil {
+								what += ": the initiator goes on although the act it received does not carry its protocol id and the challenge of its own nonce and the received nonce"
+							}
+							diverge(i, fmt.Sprintf("check2:%v->%v", ok, err == nil), what, ok, fmt.Sprint(err))
+							return
+						}
+						if err != nil {
+							return
+						}
+						m := ia3.Message()
+						if m.challenge != vr.challenge(bind, net.Get("m").Get("chal")) {
+							diverge(i, "act3-content", "act 3 does not carry the challenge of the initiator's nonce and the received nonce, unaltered", net.Get("m").X, fmt.Sprintf("%x", m.challenge))
+						}
+						fl = c20Flight{act: 3, a3: m}
+					case "Finalize":
+						wire, err := fl.a3.Marshal()
+						if err != nil {
+							t.Fatalf("marshal act 3: %v", err)
+						}
+						got := &Act3Message{}
+						if err := got.Unmarshal(wire); err != nil {
+							t.Fatalf("unmarshal act 3: %v", err)
+						}
+						err = ra3.FinalizeHandshake(got)
+						ok := s.Get("rst").Str() == "done"
+						if (err == nil) != ok {
+							what := fmt.Sprintf("FinalizeHandshake returned %v, the specification says accepted = %v", err, ok)
+							if err == nil {
+								what += ": the responder completes on a challenge that is not the one derived from the nonce it received and its own"
+							}
+							diverge(i, fmt.Sprintf("finalize:%v->%v", ok, err == nil), what, ok, fmt.Sprint(err))
+						}
+					case "InitiatorSeesClose", "ResponderSeesClose":
+						// the other side gave up; nothing to call
+					default:
+						t.Fatalf("unknown step %q", s.Get("a").Str())
+					}
+					rep.Count("steps", 1)
 				}
 			}()
-			for i, s := range steps {
-				if bad != "" {
-					return
-				}
-				net := s.Get("net")
-				switch s.Get("a").Str() {
-				case "SendAct1":
-					rd.next = []uint64{c20Nonce[c.Get("n1").Int()]}
-					ia1, err := InitiateHandshake(c.Get("ip").Str())
-					if err != nil {
-						t.Fatalf("InitiateHandshake: %v", err)
-					}
-					m := ia1.Message()
-					if m.nonce1 != c20Nonce[net.Get("m").Get("nonce").Int()] || m.protocol1 != net.Get("m").Get("proto").Str() {
-						diverge(i, "act1-content", "act 1 does not carry the initiator's nonce and protocol id", net.Get("m").X, fmt.Sprintf("%+v", *m))
-					}
-					ia2 = ia1.Next()
-					fl = c20Flight{act: 1, a1: m}
-				case "AlterField", "Replay":
-					tamp = true
-					fl.set(bind, net.Get("m"))
-				case "AnswerAct1":
-					wire, err := fl.a1.Marshal()
-					if err != nil {
-						t.Fatalf("marshal act 1: %v", err)
-					}
-					got := &Act1Message{}
-					if err := got.Unmarshal(wire); err != nil {
-						t.Fatalf("unmarshal act 1: %v", err)
-					}
-					n2 := s.Get("n2").Int()
-					rd.next = []uint64{c20Nonce[n2]}
-					if n2 == 0 {
-						rd.next = []uint64{0xdead}
-					}
-					ra2, err := AnswerHandshake(got, c.Get("rp").Str())
-					ok := s.Get("rst").Str() == "wait"
-					if (err == nil) != ok {
-						diverge(i, fmt.Sprintf("answer:%v->%v", ok, err == nil), fmt.Sprintf("AnswerHandshake(act1{nonce %d, protocol %q}, %q) returned %v, the specification says accepted = %v",
-							got.nonce1, got.protocol1, c.Get("rp").Str(), err, ok), ok, fmt.Sprint(err))
-						return
-					}
-					if err != nil {
-						return
-					}
-					m := ra2.Message()
-					wm := net.Get("m")
-					if msg := bind.bind(c20Pair(wm.Get("chal")), m.challenge); msg != "" {
-						diverge(i, "challenge", "act 2: "+msg+" (the challenge must be derived from both nonces)", wm.X, nil)
-					}
-					if m.nonce2 != c20Nonce[wm.Get("nonce").Int()] || m.protocol2 != wm.Get("proto").Str() {
-						diverge(i, "act2-content", "act 2 does not carry the responder's nonce and protocol id", wm.X, fmt.Sprintf("%+v", *m))
-					}
-					ra3 = ra2.Next()
-					fl = c20Flight{act: 2, a2: m}
-				case "CheckAct2":
-					wire, err := fl.a2.Marshal()
-					if err != nil {
-						t.Fatalf("marshal act 2: %v", err)
-					}
-					got := &Act2Message{}
-					if err := got.Unmarshal(wire); err != nil {
-						t.Fatalf("unmarshal act 2: %v", err)
-					}
-					ia3, err := ia2.Next(got)
-					ok := s.Get("ist").Str() == "done"
-					if (err == nil) != ok {
-						what := fmt.Sprintf("InitiatorAct2.Next returned %v, the specification says accepted = %v", err, ok)
-						if err == nil {
-							what += ": the initiator goes on although the act it received does not carry its protocol id and the challenge of its own nonce and the received nonce"
-						}
-						diverge(i, fmt.Sprintf("check2:%v->%v", ok, err == nil), what, ok, fmt.Sprint(err))
-						return
-					}
-					if err != nil {
-						return
-					}
-					m := ia3.Message()
-					if m.challenge != bind.challenge(c20Pair(net.Get("m").Get("chal"))) {
-						diverge(i, "act3-content", "act 3 does not carry the challenge the initiator verified", net.Get("m").X, nil)
-					}
-					fl = c20Flight{act: 3, a3: m}
-				case "Finalize":
-					wire, err := fl.a3.Marshal()
-					if err != nil {
-						t.Fatalf("marshal act 3: %v", err)
-					}
-					got := &Act3Message{}
-					if err := got.Unmarshal(wire); err != nil {
-						t.Fatalf("unmarshal act 3: %v", err)
-					}
-					err = ra3.FinalizeHandshake(got)
-					ok := s.Get("rst").Str() == "done"
-					if (err == nil) != ok {
-						what := fmt.Sprintf("FinalizeHandshake returned %v, the specification says accepted = %v", err, ok)
-						if err == nil {
-							what += ": the responder completes on a challenge that is not the one derived from the nonce it received and its own"
-						}
-						diverge(i, fmt.Sprintf("finalize:%v->%v", ok, err == nil), what, ok, fmt.Sprint(err))
-					}
-				case "InitiatorSeesClose", "ResponderSeesClose":
-					// the other side gave up; nothing to call
-				default:
-					t.Fatalf("unknown step %q", s.Get("a").Str())
-				}
-				rep.Count("steps", 1)
+			k := ""
+			if tamp || c.Get("ip").Str() != c.Get("rp").Str() {
+				k = kit.Hash(c.X)
 			}
-		}()
-		k := ""
-		if tamp || c.Get("ip").Str() != c.Get("rp").Str() {
-			k = kit.Hash(c.X)
+			if k != "" && nvar == 3 {
+				k += fmt.Sprintf("/%d", which)
+			}
+			rep.Eval(k, map[string]interface{}{"ip": c.Get("ip").Str(), "rp": c.Get("rp").Str(), "steps": len(steps),
+				"ist": c.Get("ist").Str(), "rst": c.Get("rst").Str()})
+			_ = key
 		}
-		rep.Eval(k, map[string]interface{}{"ip": c.Get("ip").Str(), "rp": c.Get("rp").Str(), "steps": len(steps),
-			"ist": c.Get("ist").Str(), "rst": c.Get("rst").Str()})
-		_ = key
+	}
+	for b := range touched {
+		rep.Count(b, 1)
 	}
 	var _ io.Reader = rd
 }
